@@ -1,13 +1,16 @@
 #!/bin/bash
-# tools/mut.sh <patch.diff> <ID> [demo.py] [extra check args] : apply a seeded change to /repo, run the
-# baseline tests, the demo and the quick check, then undo it.  Never commits.
+# tools/mut.sh <patch.diff> <ID> [demo.py] [extra check args]
+# Apply a seeded change to a scratch worktree of /repo's HEAD (outside /repo and /verif), run the baseline
+# tests, the demo and the quick check against it (POX_SRC), then remove the worktree.  Never touches /repo's
+# working tree, so it is safe while other checks run.
 P="$(realpath "$1")"; ID="$2"; DEMO="$3"; [ -n "$DEMO" ] && DEMO="$(realpath "$DEMO")"; shift 3
-cd /repo || exit 2
-if ! git diff --quiet; then echo "repo dirty"; exit 2; fi
+W=/tmp/mut_$$
+git -C /repo worktree add --detach -f "$W" HEAD >/dev/null 2>&1 || { echo "cannot create worktree"; exit 2; }
+trap 'git -C /repo worktree remove --force "$W" >/dev/null 2>&1; rm -rf "$W"' EXIT
+cd "$W" || exit 2
 git apply "$P" || { echo "PATCH-DOES-NOT-APPLY"; exit 3; }
-trap 'git -C /repo checkout -- .' EXIT
 T=$(/venv/bin/python -m pytest -q -p no:cacheprovider --timeout=900 --continue-on-collection-errors 2>&1 | tail -1)
 echo "tests: $T"
-if [ -n "$DEMO" ] && [ -f "$DEMO" ]; then /venv/bin/python "$DEMO" /repo >/tmp/demo.out 2>&1; echo "demo exit=$? ($(tail -1 /tmp/demo.out | cut -c1-150))"; fi
-cd /verif && ./check "$ID" --no-evidence "$@" 2>&1 | grep -v "^KNOWN-FINDING\|^note:" | tail -6
+if [ -n "$DEMO" ] && [ -f "$DEMO" ]; then /venv/bin/python "$DEMO" "$W" >/tmp/demo_$$.out 2>&1; echo "demo exit=$? ($(tail -1 /tmp/demo_$$.out | cut -c1-150))"; rm -f /tmp/demo_$$.out; fi
+cd /verif && POX_SRC="$W" ./check "$ID" --no-evidence "$@" 2>&1 | grep -v "^KNOWN-FINDING\|^note:" | tail -6
 echo "check exit=${PIPESTATUS[0]}"
